@@ -219,8 +219,8 @@ func replayWriterOne(sc *wScenario, realB int, seed int64, stepTimeout time.Dura
 		case r := <-pending:
 			pending = nil
 			return checkReturn2(i, r)
-		case <-time.After(10 * time.Second):
-			res.Status, res.Pred, res.Detail, res.Step = "violation", "termination", "call did not return within 10 s with all gates open", i
+		case <-time.After(6 * time.Second):
+			res.Status, res.Pred, res.Detail, res.Step = "violation", "termination", "call did not return within 6 s with all gates open", i
 			pending = nil
 			return false
 		}
@@ -231,8 +231,8 @@ func replayWriterOne(sc *wScenario, realB int, seed int64, stepTimeout time.Dura
 		if pending != nil {
 			select {
 			case <-pending:
-			case <-time.After(10 * time.Second):
-				res.Status, res.Pred, res.Detail = "violation", "termination", "call did not return within 10 s after all gates were opened"
+			case <-time.After(6 * time.Second):
+				res.Status, res.Pred, res.Detail = "violation", "termination", "call did not return within 6 s after all gates were opened"
 			}
 		}
 		if res.Status != "match" {
@@ -318,6 +318,24 @@ func replayWriterOne(sc *wScenario, realB int, seed int64, stepTimeout time.Dura
 	}
 
 	checkReturn2 = func(i int, r wret) bool { return checkReturn(i, r, wExp{}) }
+	evSeen := 0
+	cancelPublished := false
+	// exact while the gates impose a total order (C07): once a task has published a failure, no task acquires
+	// the shared stream any more
+	scanEvents := func(i int) bool {
+		evs := rec.Events()
+		for ; evSeen < len(evs); evSeen++ {
+			e := evs[evSeen]
+			if e.Pt == kio.VH_E_FIN1 && e.B == -1 {
+				cancelPublished = true
+			}
+			if e.Pt == kio.VH_E_SEEN && e.A != -1 && cancelPublished && !freeRun {
+				fail(i, "violation", "C07_acquire_after_cancel", fmt.Sprintf("task %d acquired the shared stream after a failure was published", e.ID))
+				return false
+			}
+		}
+		return true
+	}
 	call := func(op string, f func() (int, error)) {
 		ch := make(chan wret, 1)
 		go func() {
@@ -426,6 +444,9 @@ func replayWriterOne(sc *wScenario, realB int, seed int64, stepTimeout time.Dura
 				return
 			}
 			cur[id] = pt
+			if !scanEvents(i) {
+				return
+			}
 			if wantNext := encodeGateOfPc[exp.Et[t]]; pt != wantNext {
 				fail(i, "drift", "gate", fmt.Sprintf("after %s(%s) task %d is at %s, model pc %s", st.A, t, id, hk.Names[pt], exp.Et[t]))
 				continue
@@ -463,29 +484,32 @@ func replayWriterOne(sc *wScenario, realB int, seed int64, stepTimeout time.Dura
 		}
 		prev = exp
 	}
-	if freeRun {
-		if waitPending(len(sc.Steps)) && res.Status == "match" {
-			res.Status, res.Pred, res.Detail, res.Step = driftDetail[0], driftDetail[1], driftDetail[2], driftStep
-		}
+	// the path ended: open the gates, let the pending call finish, then complete the history as a caller would
+	// (Close, retried after a failure) and judge the outcome with the property predicates
+	sched.Free()
+	wasFree := freeRun
+	freeRun = true
+	if !waitPending(len(sc.Steps)) {
 		return
 	}
-	if pending != nil {
-		sched.Free()
-		select {
-		case r := <-pending:
-			pending = nil
-			if r.panic != nil {
-				fail(len(sc.Steps), "violation", "W_NoPanic", fmt.Sprintf("%s panicked: %v", r.op, r.panic))
-			} else if r.op == "close" && r.err == nil {
-				if r.op == "write" {
-					accepted = written
+	for k := 0; k < 3 && !closeNil; k++ {
+		atomic.StoreInt32(&inClose, 1)
+		r := wret{op: "close"}
+		func() {
+			defer func() {
+				if p := recover(); p != nil {
+					r.panic = p
 				}
-				checkSink(len(sc.Steps), true)
-			}
-		case <-time.After(10 * time.Second):
-			fail(len(sc.Steps), "violation", "termination", "call did not return within 10 s after all gates were opened")
-			pending = nil
+			}()
+			r.err = w.Close()
+		}()
+		atomic.StoreInt32(&inClose, 0)
+		if !checkReturn2(len(sc.Steps), r) {
+			return
 		}
+	}
+	if wasFree && res.Status == "match" {
+		res.Status, res.Pred, res.Detail, res.Step = driftDetail[0], driftDetail[1], driftDetail[2], driftStep
 	}
 	return
 }
@@ -532,7 +556,7 @@ func cmdReplayWriter(args []string) int {
 		go func() {
 			defer wg.Done()
 			for j := range jobs {
-				r := replayWriterOne(j.s, realB, seed+int64(j.n), 5*time.Second)
+				r := replayWriterOne(j.s, realB, seed+int64(j.n), 3*time.Second)
 				b, _ := json.Marshal(r)
 				mu.Lock()
 				bw.Write(b)
